@@ -39,9 +39,9 @@ def effective(leaves, derived):
 
 
 # ------------------------------------------------------------------------------------------------ representations
-NN_REPS = ("nn_flat", "nn_nested", "nn_method_mixed", "nn_tied", "em_nn", "em_nn_reordered", "sib_multi_nn", "sib_single_nn",
+NN_REPS = ("nn_dup", "nn_flat", "nn_nested", "nn_method_mixed", "nn_tied", "em_nn", "em_nn_reordered", "sib_multi_nn", "sib_single_nn",
            "sib_multi_plainmid", "sib_multi_plainfirst")
-REPS = ("pure", "pure_nontensor", "jit", "nn_flat", "nn_nested", "nn_method_mixed", "nn_tied",
+REPS = ("pure", "pure_nontensor", "pure_dup", "nn_dup", "jit", "nn_flat", "nn_nested", "nn_method_mixed", "nn_tied",
         "em_flat", "em_container", "em_alias", "em_nn", "em_nn_reordered", "em_mixed",
         "sib_single", "sib_single_nn", "sib_multi", "sib_multi_shared", "sib_multi_nn", "sib_multi_plainmid", "sib_multi_plainfirst")
 
@@ -76,6 +76,26 @@ def build(rep, core, nlead, eff, s):
             assert none is None and flag == "flag"
             return core(*lead, pa, pb, pW, ps)
         return Built(f, (a, s, None, b, "flag", W), [], (0, 3, 5))
+
+    if rep == "pure_dup":
+        # one tensor object supplied in two parameter slots
+        def f(*args):
+            lead, (pa, pb, pW, pa2) = lead_rest(args)
+            return core(*lead, 0.25 * pa + 0.75 * pa2, pb, pW, s)
+        return Built(f, (a, b, W, a), [], (0, 1, 2, 3))
+
+    if rep == "nn_dup":
+        # a module parameter that is also passed explicitly
+        class M(torch.nn.Module):
+            def __init__(self, a, b, W):
+                super().__init__()
+                self.a, self.b, self.W = a, b, W
+
+            def forward(self, *args):
+                lead, (pa2, pW2) = lead_rest(args)
+                return core(*lead, 0.25 * self.a + 0.75 * pa2, self.b, 0.5 * (self.W + pW2), s)
+        m = M(a, b, W)
+        return Built(m.forward, (a, W), [("m", m)], (0, 1))
 
     if rep == "jit":
         if core not in _SCRIPTED:
